@@ -19,7 +19,7 @@ import (
 //         constant index on a library call's result" (the parts[1] behind `len(parts) < 2`): a count of a
 //         syntactic site.  It is restated as the two facts it protected:
 //
-//           * the clause itself (c15SchemeSeparator): with CTFE storage selected and a mysql connection string
+//           * the clause itself (round 7: c15ConnStrings in rules_t7c15cfg.go): with CTFE storage selected and a mysql connection string
 //             that does not contain "://", no accepting return of the validator can execute — decided by
 //             valuating every branch condition whose outcome that fact fixes, whatever the presence test is
 //             written with (len(strings.Split(s, "://")) against a constant, the `found` result of
@@ -45,263 +45,11 @@ func t6Debug(r *Run, n int) {
 }
 
 // ---- C15.R2: the scheme separator ---------------------------------------------------------------------
-
-const c15Conn = "p0.CtfeStorageConnectionString || (*trillian/ctfe/configpb.LogConfig).GetCtfeStorageConnectionString(p0)"
-const c15Sep = "://"
-
-// c15sepEval evaluates integer / boolean SSA values that are functions of "does the connection string contain the
-// scheme separator" (present: the witness is a string with exactly one separator, after a 5-byte driver name).
-type c15sepEval struct {
-	r       *Run
-	present bool
-}
-
-// sepCall: v is strings.<name>(conn, "://", …); returns the call.
-func (e *c15sepEval) sepCall(v ssa.Value, names ...string) *ssa.Call {
-	c, ok := v.(*ssa.Call)
-	if !ok || c.Call.IsInvoke() || c.Call.StaticCallee() == nil || len(c.Call.Args) < 2 {
-		return nil
-	}
-	fn := FuncName(c.Call.StaticCallee())
-	hit := false
-	for _, n := range names {
-		hit = hit || fn == "strings."+n
-	}
-	if !hit || !anyGlob(c15Conn, e.r.D.D(c.Call.Args[0])) {
-		return nil
-	}
-	k, isC := c.Call.Args[1].(*ssa.Const)
-	if !isC || k.Value == nil || k.Value.Kind() != constant.String || constant.StringVal(k.Value) != c15Sep {
-		return nil
-	}
-	return c
-}
-
-func (e *c15sepEval) cutResult(v ssa.Value, idx int) bool {
-	ex, ok := v.(*ssa.Extract)
-	return ok && ex.Index == idx && e.sepCall(ex.Tuple, "Cut") != nil
-}
-
-func (e *c15sepEval) intVal(v ssa.Value, depth int) (int64, bool) {
-	if depth > 6 {
-		return 0, false
-	}
-	pick := func(absent, present int64) (int64, bool) {
-		if e.present {
-			return present, true
-		}
-		return absent, true
-	}
-	switch x := v.(type) {
-	case *ssa.Const:
-		if x.Value != nil && x.Value.Kind() == constant.Int {
-			return constant.Int64Val(x.Value)
-		}
-	case *ssa.Convert:
-		return e.intVal(x.X, depth+1)
-	case *ssa.BinOp:
-		a, okA := e.intVal(x.X, depth+1)
-		b, okB := e.intVal(x.Y, depth+1)
-		if okA && okB {
-			switch x.Op {
-			case token.ADD:
-				return a + b, true
-			case token.SUB:
-				return a - b, true
-			}
-		}
-	case *ssa.Call:
-		if b, isB := x.Call.Value.(*ssa.Builtin); isB && b.Name() == "len" && len(x.Call.Args) == 1 {
-			arg := x.Call.Args[0]
-			if e.sepCall(arg, "Split", "SplitAfter") != nil {
-				return pick(1, 2)
-			}
-			if c := e.sepCall(arg, "SplitN", "SplitAfterN"); c != nil && len(c.Call.Args) == 3 {
-				if n, ok := e.intVal(c.Call.Args[2], depth+1); ok {
-					switch {
-					case n == 0:
-						return 0, true
-					case n == 1:
-						return 1, true
-					}
-					return pick(1, 2)
-				}
-			}
-			if e.cutResult(arg, 1) && !e.present {
-				return 0, true // nothing follows a separator that is not there
-			}
-			return 0, false
-		}
-		if e.sepCall(x, "Index", "LastIndex") != nil {
-			return pick(-1, 5)
-		}
-		if e.sepCall(x, "Count") != nil {
-			return pick(0, 1)
-		}
-	}
-	return 0, false
-}
-
-// boolVal: (value, known).
-func (e *c15sepEval) boolVal(v ssa.Value, depth int) (bool, bool) {
-	if depth > 6 {
-		return false, false
-	}
-	switch x := v.(type) {
-	case *ssa.UnOp:
-		if x.Op == token.NOT {
-			b, ok := e.boolVal(x.X, depth+1)
-			return !b, ok
-		}
-	case *ssa.Extract:
-		if e.cutResult(x, 2) {
-			return e.present, true
-		}
-	case *ssa.Call:
-		if e.sepCall(x, "Contains") != nil {
-			return e.present, true
-		}
-	case *ssa.BinOp:
-		if a, okA := e.intVal(x.X, depth+1); okA {
-			if b, okB := e.intVal(x.Y, depth+1); okB {
-				switch x.Op {
-				case token.EQL:
-					return a == b, true
-				case token.NEQ:
-					return a != b, true
-				case token.LSS:
-					return a < b, true
-				case token.LEQ:
-					return a <= b, true
-				case token.GTR:
-					return a > b, true
-				case token.GEQ:
-					return a >= b, true
-				}
-			}
-		}
-		// the remainder after a separator that is not there is the empty string
-		if !e.present && (x.Op == token.EQL || x.Op == token.NEQ) {
-			isEmpty := func(v ssa.Value) bool {
-				k, ok := v.(*ssa.Const)
-				return ok && k.Value != nil && k.Value.Kind() == constant.String && constant.StringVal(k.Value) == ""
-			}
-			if e.cutResult(x.X, 1) && isEmpty(x.Y) || e.cutResult(x.Y, 1) && isEmpty(x.X) {
-				return x.Op == token.EQL, true
-			}
-		}
-	}
-	return false, false
-}
-
-// c15SepModel valuates every branch condition of fn whose outcome is fixed by the presence / absence of the scheme
-// separator in the connection string.  Returns the valuation and the atoms it fixes.
-func c15SepModel(r *Run, fn *ssa.Function, present bool) (Sigma, []string) {
-	e := &c15sepEval{r: r, present: present}
-	s := Sigma{}
-	var bound []string
-	found := r.D.AtomsOf(fn)
-	all := map[string]bool{}
-	for k := range found {
-		all[k] = true
-	}
-	for _, site := range r.atomSites(fn, all) {
-		t, known := e.boolVal(site, 0)
-		if !known {
-			continue
-		}
-		ci := r.D.Classify(site)
-		var fit []string
-		for _, d := range domains[ci.Kind] {
-			if ci.True[d] == t {
-				fit = append(fit, d)
-			}
-		}
-		val := ""
-		switch {
-		case len(fit) == 1:
-			val = fit[0]
-		case ci.Kind == "ord":
-			// the exact relation of the two operands, oriented as the atom's key is
-			if bo, ok := site.(*ssa.BinOp); ok {
-				a, okA := e.intVal(bo.X, 0)
-				b, okB := e.intVal(bo.Y, 0)
-				if okA && okB {
-					rel := "="
-					if a < b {
-						rel = "<"
-					} else if a > b {
-						rel = ">"
-					}
-					switch {
-					case r.D.D(bo.X) == ci.A && r.D.D(bo.Y) == ci.B:
-						val = rel
-					case r.D.D(bo.X) == ci.B && r.D.D(bo.Y) == ci.A:
-						val = sgFlipRel(rel)
-					}
-					if val != "" && ci.True[val] != t {
-						val = ""
-					}
-				}
-			}
-		}
-		if val == "" {
-			continue
-		}
-		if _, done := s[ci.Key]; !done {
-			bound = append(bound, ci.Key)
-		}
-		s[ci.Key] = val
-	}
-	return s, bound
-}
-
-// c15SchemeSeparator: under the preconditions pre (the case: CTFE storage, mysql driver) a connection string without
-// the scheme separator is refused, one with the separator can be accepted.
-func c15SchemeSeparator(r *Run, fn *ssa.Function, key string, pre ...SgAtom) {
-	defer t6Debug(r, len(r.Obls))
-	succ := sgOkReturns(fn)
-	if len(succ) == 0 {
-		r.Fail(key, r.FnPos(fn), "undecided: "+FuncName(fn)+" has no success return")
-		return
-	}
-	base := Sigma{}
-	for _, c := range pre {
-		b, err := r.sgBind(fn, c)
-		if err != nil {
-			r.Fail(key, r.FnPos(fn), "undecided: "+err.Error())
-			return
-		}
-		b.set(base, c.Val)
-	}
-	with := func(m Sigma) Sigma {
-		s := Sigma{}
-		for k, v := range base {
-			s[k] = v
-		}
-		for k, v := range m {
-			s[k] = v
-		}
-		return s
-	}
-	absent, bound := c15SepModel(r, fn, false)
-	present, _ := c15SepModel(r, fn, true)
-	r.Valuations += 2
-	sA, sP := with(absent), with(present)
-	if ret := sgAnyReach(r.D.Walk(fn, sA, nil, nil), succ); ret != nil {
-		why := fmt.Sprintf("the tests that depend on it (%s) do not stand between such a string and the accepting return (valuation %s)", strings.Join(bound, "; "), sA)
-		if len(bound) == 0 {
-			why = "no branch condition of the validator depends on whether \"" + c15Sep + "\" occurs in the string (what a missing separator leaves — an empty or whole-string DSN — goes to the driver's parser, which has defaults for everything)"
-		}
-		r.Fail(key, r.Where(ret), "CTFE storage with a mysql connection string that lacks the scheme separator \""+c15Sep+"\" (\"mysql\", \"mysql:/user@tcp(h)/db\", …) is accepted: the accepting return is reachable; "+why)
-		return
-	}
-	if sgAnyReach(r.D.Walk(fn, sP, nil, nil), succ) == nil {
-		r.Fail(key, r.FnPos(fn), fmt.Sprintf("the accepting return is unreachable even for a mysql connection string WITH the scheme separator (valuation %s): rejected more broadly than by the cause (control)", sP))
-		return
-	}
-	r.Pass(key, r.Where(succ[0]), fmt.Sprintf("mysql connection string without \"%s\": the accepting return is unreachable; with it: reachable; conditions fixed by the separator's presence: %s", c15Sep, strings.Join(bound, "; ")))
-}
+//
+// Round 7: the clause is now decided on concrete sample strings ("mysql", "mysql:/user@tcp(h)/db" against
+// "mysql://user@tcp(h)/db") by the string evaluator of rules_t7c15cfg.go (c15ConnStrings), which subsumes the
+// abstract "separator present / absent" evaluation that stood here and no longer needs the validator to select
+// the mysql case with one particular predicate.
 
 // ---- C15.R1: what is handed to a storage driver's parser ----------------------------------------------
 
